@@ -304,8 +304,8 @@ def run_job(name, run, *, timeout_ms=60000, max_paths=20000, prune=True, prune_t
             gen = solve.explore(run, max_paths=max_paths, prune=prune, prune_timeout_ms=prune_timeout_ms)
             # a changed implementation can blow the exploration up (thousands of slow pruning queries): the job then stops
             # exploring, checks the paths it has, and is reported incomplete (exit 2 unless one of them is a violation)
-            solve.JOB_DEADLINE = t0 + float(os.environ.get("VERIF_JOB_BUDGET_S", "900" if timeout_ms <= 120000 else "3600"))
-            core.DEADLINE = t0 + float(os.environ.get("VERIF_EXPLORE_BUDGET_S", "240" if timeout_ms <= 120000 else "1500"))
+            solve.JOB_DEADLINE = t0 + float(os.environ.get("VERIF_JOB_BUDGET_S", "900" if timeout_ms <= 240000 else "3600"))
+            core.DEADLINE = t0 + float(os.environ.get("VERIF_EXPLORE_BUDGET_S", "240" if timeout_ms <= 240000 else "1500"))
             paths = []
             cap_hit = False
             try:
